@@ -50,6 +50,15 @@ def run(ctx):
             for bv in (4, 5, 6):
                 extra.append(dict(entry="universal", limit=7000, nlp=nlp, fuzzy=False, thr=0, ponly=False, pboost=False, allplat=True, plats=[],
                                   nocross=False, boost=True, boostvar=bv, query="raw", raw=raw, corpus=corpus))
+    # a boosted word that no command contains, next to ordinary words: nothing may change at all
+    for raw, corpus in [("absentword widget", "mix"), ("zzabsent frobnicate widget", "mix"), ("widget absentword", "mix"), ("qqnowhere item question", "mix"),
+                        ("absentword zzabsent qqnowhere number", "mix"), ("zzabsent list files", "shipped"), ("qqnowhere docker image zzabsent build", "shipped"),
+                        ("absentword item", "mix")]:
+        for nlp in (True, False):
+            for bv in (7, 0):
+                for entry in ("universal", "cached"):
+                    extra.append(dict(entry=entry, limit=7000, nlp=nlp, fuzzy=False, thr=0, ponly=False, pboost=False, allplat=True, plats=[],
+                                      nocross=False, boost=True, boostvar=bv, query="raw", raw=raw, corpus=corpus))
     # boosts on real words of the shipped database
     tr, info, ok, rej = engine.run_cases(ctx, scen + extra, ["C13"])
     for x in rej:
